@@ -45,10 +45,23 @@ def collected(fe, tab, ctxs, intern, second_run=False):
         lst = collect_results(res, how="list")
         dct = collect_results(res, how="dict")
     out = []
+
+    def col(a):
+        """A collected data / axis column, canonical: masked -> None, NaN -> 'nan', datetimes -> ns."""
+        if a is None:
+            return None
+        msk = np.ma.getmaskarray(a).reshape(-1)
+        d = np.asarray(np.ma.getdata(a)).reshape(-1)
+        if np.issubdtype(d.dtype, np.datetime64):
+            d = d.astype("datetime64[ns]").astype("int64")
+        return tuple(None if m else ("nan" if (isinstance(v, float) and v != v) else v) for v, m in zip(d.tolist(), msk.tolist()))
+
     for cr in lst:
         flags = tuple(None if m else int(v) for v, m in zip(np.ma.getdata(cr.results).reshape(-1).tolist(),
                                                             np.ma.getmaskarray(cr.results).reshape(-1)))
-        out.append([cr.hash_key, intern.setdefault(flags, len(intern) + 1)])
+        # the whole collected result is "the result a test yields": its flags AND the data / time / depth / position columns
+        whole = (flags, col(cr.data), col(cr.tinp), col(cr.zinp), col(cr.lat), col(cr.lon))
+        out.append([cr.hash_key, intern.setdefault(whole, len(intern) + 1)])
     nd = sum(len(tests) for pk in dct.values() for tests in pk.values())
     # the dict form, flattened to the same (key, flags) shape (uncovered rows are UNKNOWN there, not masked)
     out_d = []
